@@ -1252,10 +1252,11 @@ impl OverlayFs {
                 delete_whiteout = true;
             }
 
-            // Set opaque if child dir has lower layers.
-            if !n.upper_layer_only() {
-                set_opaque = true;
-            }
+            // The new directory replaces a whiteout: whatever the whiteout was hiding in the
+            // lower layers must stay hidden, so the directory is always made opaque (as the
+            // kernel's overlayfs does). The whiteout node itself never records lower layers,
+            // so upper_layer_only() cannot be used to decide this.
+            set_opaque = true;
         }
 
         // Copy parent node up if necessary.
